@@ -296,9 +296,11 @@ Theorem translated_render_svg_is_model o t input :
    d <- svg_doc t input ;;
    Some (svg_print (svg_width_px o (svg_split_lines styled)) (svg_o_uw o) d)).
 Proof.
-  unfold g_svg_render, svg_doc, svg_styled. cbv zeta. cbn [fst snd].
-  rewrite translated_extract_next_is_model.
+  unfold g_svg_render, svg_doc, svg_styled. cbv zeta.
+  (* `WinconBytes::new()` and the drained `extract_next` are the TRANSLATED glue of Generated/WinconFn.v *)
+  rewrite translated_wb_extract_next_is_model.
   destruct (extract_next input parser_new capture_default) as [[[runs p] c]|]; [|reflexivity].
+  cbv beta iota.
   match goal with |- context [for_list0 ?f runs _] => set (FI := f) end.
   set (inv := fun p : sstyle * list N => (svg_invert t (fst p), snd p)).
   assert (LI : forall l acc e, for_list0 FI l (acc, e) =
@@ -383,3 +385,181 @@ Corollary translated_render_svg_panics o t input :
 Proof.
   intros H. rewrite translated_render_svg_is_model, H. destruct (svg_styled t input); reflexivity.
 Qed.
+
+(* ---- Term::new, impl Default for Term, the builders (translated over the WHOLE struct, Model/Svg.svg_term_full) ---- *)
+
+Lemma svg_to_of_color c : svg_to_color (svg_of_color c) = c.
+Proof. destruct c as [a | i | [[r g] b]]; reflexivity. Qed.
+
+(* const FG_COLOR / BG_COLOR: the translated constants are the ANSI numbers tools/gen_svg.py reads *)
+Lemma g_svg_const_fg_color_eq : g_svg_const_fg_color = Ansi svg_default_fg_ansi.
+Proof. reflexivity. Qed.
+Lemma g_svg_const_bg_color_eq : g_svg_const_bg_color = Ansi svg_default_bg_ansi.
+Proof. reflexivity. Qed.
+
+(* Term::new(): every field; the literals of the translated struct literal are the constants of Generated/Svg.v *)
+Theorem g_svg_term_new_eq :
+  g_svg_term_new =
+  mkSvgTermFull vga (Ansi svg_default_fg_ansi) (Ansi svg_default_bg_ansi) true svg_font_family svg_min_width svg_padding.
+Proof. reflexivity. Qed.
+
+Corollary g_svg_term_new_is_model : g_svg_term_new = svg_term_full_new.
+Proof. exact g_svg_term_new_eq. Qed.
+
+(* ... whose projection is the hand model's Term::new() (the default palette, white on black, background on),
+   with the generated minimal width and the two constant fields *)
+Corollary g_svg_term_new_projects :
+  svg_tf_term g_svg_term_new = svg_term_new /\
+  svg_tf_min_width_px g_svg_term_new = svg_min_width /\
+  svg_tf_consts g_svg_term_new.
+Proof. repeat split. Qed.
+
+(* <Term as Default>::default() *)
+Theorem g_svg_term_default_eq : g_svg_term_default = g_svg_term_new.
+Proof. reflexivity. Qed.
+
+(* each builder sets exactly its own field ... *)
+Lemma g_svg_term_palette_eq t p : g_svg_term_palette t p = set_svg_tf_palette t p.
+Proof. reflexivity. Qed.
+Lemma g_svg_term_fg_color_eq t c : g_svg_term_fg_color t c = set_svg_tf_fg_color t c.
+Proof. reflexivity. Qed.
+Lemma g_svg_term_bg_color_eq t c : g_svg_term_bg_color t c = set_svg_tf_bg_color t c.
+Proof. reflexivity. Qed.
+Lemma g_svg_term_background_eq t y : g_svg_term_background t y = set_svg_tf_background t y.
+Proof. reflexivity. Qed.
+Lemma g_svg_term_min_width_px_eq t n : g_svg_term_min_width_px t n = set_svg_tf_min_width_px t n.
+Proof. reflexivity. Qed.
+
+(* ... one builder call, as a value: the translated functions under the constructors of [svg_builder] *)
+Definition g_svg_build1 (t : svg_term_full) (b : svg_builder) : svg_term_full :=
+  match b with
+  | SbPalette p => g_svg_term_palette t p
+  | SbFgColor c => g_svg_term_fg_color t c
+  | SbBgColor c => g_svg_term_bg_color t c
+  | SbBackground y => g_svg_term_background t y
+  | SbMinWidthPx n => g_svg_term_min_width_px t n
+  end.
+Definition g_svg_build (t : svg_term_full) (bs : list svg_builder) : svg_term_full := fold_left g_svg_build1 bs t.
+
+Lemma g_svg_build1_eq t b : g_svg_build1 t b = svg_build1 t b.
+Proof. destruct b; reflexivity. Qed.
+
+Lemma g_svg_build_eq bs : forall t, g_svg_build t bs = svg_build t bs.
+Proof.
+  unfold g_svg_build, svg_build. induction bs as [|b bs IH]; intros t; cbn [fold_left]; [reflexivity|].
+  rewrite g_svg_build1_eq. apply IH.
+Qed.
+
+(* the frame property: the record of all seven projections after one builder call.  Exactly the builder's own
+   field holds the argument, every other field is the old one. *)
+Definition svg_tf_fields (t : svg_term_full) :=
+  (svg_tf_palette t, svg_tf_fg_color t, svg_tf_bg_color t, svg_tf_background t,
+   svg_tf_font_family t, svg_tf_min_width_px t, svg_tf_padding_px t).
+
+Theorem translated_term_builders_frame t :
+  (forall p, svg_tf_fields (g_svg_term_palette t p) =
+     (p, svg_tf_fg_color t, svg_tf_bg_color t, svg_tf_background t, svg_tf_font_family t, svg_tf_min_width_px t, svg_tf_padding_px t)) /\
+  (forall c, svg_tf_fields (g_svg_term_fg_color t c) =
+     (svg_tf_palette t, c, svg_tf_bg_color t, svg_tf_background t, svg_tf_font_family t, svg_tf_min_width_px t, svg_tf_padding_px t)) /\
+  (forall c, svg_tf_fields (g_svg_term_bg_color t c) =
+     (svg_tf_palette t, svg_tf_fg_color t, c, svg_tf_background t, svg_tf_font_family t, svg_tf_min_width_px t, svg_tf_padding_px t)) /\
+  (forall y, svg_tf_fields (g_svg_term_background t y) =
+     (svg_tf_palette t, svg_tf_fg_color t, svg_tf_bg_color t, y, svg_tf_font_family t, svg_tf_min_width_px t, svg_tf_padding_px t)) /\
+  (forall n, svg_tf_fields (g_svg_term_min_width_px t n) =
+     (svg_tf_palette t, svg_tf_fg_color t, svg_tf_bg_color t, svg_tf_background t, svg_tf_font_family t, n, svg_tf_padding_px t)).
+Proof. repeat split. Qed.
+
+(* a term is its seven fields *)
+Lemma svg_tf_fields_inj t u : svg_tf_fields t = svg_tf_fields u -> t = u.
+Proof. destruct t, u. unfold svg_tf_fields. cbn. intros H. injection H as -> -> -> -> -> -> ->. reflexivity. Qed.
+
+(* builders of different fields commute, the later of two calls of one builder wins *)
+Definition svg_builder_field (b : svg_builder) : N :=
+  match b with SbPalette _ => 0 | SbFgColor _ => 1 | SbBgColor _ => 2 | SbBackground _ => 3 | SbMinWidthPx _ => 5 end.
+
+Theorem translated_term_builders_commute t a b :
+  svg_builder_field a <> svg_builder_field b ->
+  g_svg_build1 (g_svg_build1 t a) b = g_svg_build1 (g_svg_build1 t b) a.
+Proof. destruct a, b; cbn [svg_builder_field]; intros H; try reflexivity; exfalso; apply H; reflexivity. Qed.
+
+Theorem translated_term_builders_last_wins t a b :
+  svg_builder_field a = svg_builder_field b ->
+  g_svg_build1 (g_svg_build1 t a) b = g_svg_build1 t b.
+Proof. destruct a, b; cbn [svg_builder_field]; intros H; try discriminate H; reflexivity. Qed.
+
+(* no builder touches font_family / padding_px: every term built from Term::new() carries the constants the
+   translation of render_svg reads through svg_t_font_family / svg_t_padding *)
+Lemma g_svg_build1_consts t b : svg_tf_consts t -> svg_tf_consts (g_svg_build1 t b).
+Proof. destruct b; exact (fun H => H). Qed.
+
+Theorem translated_term_built_consts bs : svg_tf_consts (g_svg_build g_svg_term_new bs).
+Proof.
+  unfold g_svg_build. generalize g_svg_term_new (proj2 (proj2 g_svg_term_new_projects)).
+  induction bs as [|b bs IH]; intros t H; cbn [fold_left]; [exact H|].
+  apply IH, g_svg_build1_consts, H.
+Qed.
+
+(* what one builder call does to the projections the hand model / the translated render_svg take:
+   the record [svg_doc] and [g_svg_render] read, and the oracle's minimal width *)
+Theorem translated_term_build1_projects t b :
+  svg_tf_term (g_svg_build1 t b) =
+    match b with
+    | SbPalette p => mkSvgTerm p (svg_t_fg (svg_tf_term t)) (svg_t_bg (svg_tf_term t)) (svg_t_background (svg_tf_term t))
+    | SbFgColor c => mkSvgTerm (svg_t_palette (svg_tf_term t)) (svg_of_color c) (svg_t_bg (svg_tf_term t)) (svg_t_background (svg_tf_term t))
+    | SbBgColor c => mkSvgTerm (svg_t_palette (svg_tf_term t)) (svg_t_fg (svg_tf_term t)) (svg_of_color c) (svg_t_background (svg_tf_term t))
+    | SbBackground y => mkSvgTerm (svg_t_palette (svg_tf_term t)) (svg_t_fg (svg_tf_term t)) (svg_t_bg (svg_tf_term t)) y
+    | SbMinWidthPx _ => svg_tf_term t
+    end /\
+  svg_tf_min_width_px (g_svg_build1 t b) = match b with SbMinWidthPx n => n | _ => svg_tf_min_width_px t end.
+Proof. destruct b; split; reflexivity. Qed.
+
+(* the term a client configures completely, `Term::new().palette(p).fg_color(f).bg_color(b).background(y).min_width_px(n)`
+   (in any order, by the commutation above), projects to the record the correspondence driver builds
+   (svg_m_doc p fg bg y = svg_doc (mkSvgTerm p fg bg y)), with minimal width n and the constant fields *)
+Theorem translated_term_configured p fg bg y n :
+  let t := g_svg_term_min_width_px (g_svg_term_background (g_svg_term_bg_color (g_svg_term_fg_color
+             (g_svg_term_palette g_svg_term_new p) (svg_to_color fg)) (svg_to_color bg)) y) n in
+  svg_tf_term t = mkSvgTerm p fg bg y /\
+  svg_tf_min_width_px t = n /\
+  svg_tf_consts t /\
+  (forall uw ceil84 input,
+     g_svg_render (svg_tf_oracle uw ceil84 t) (svg_tf_term t) input =
+     g_svg_render (mkSvgOracle uw ceil84 n) (mkSvgTerm p fg bg y) input).
+Proof.
+  cbv zeta. unfold svg_tf_term. cbn [g_svg_term_min_width_px g_svg_term_background g_svg_term_bg_color g_svg_term_fg_color g_svg_term_palette].
+  cbn. rewrite !svg_of_to_color. repeat split.
+Qed.
+
+(* ---- render_svg translated once more, over the WHOLE struct (every `self.<field>` is a field of [svg_term_full]) ----
+   On a term that keeps [svg_tf_consts] it is [g_svg_render] on the projections: reading font_family / padding_px as
+   constants and min_width_px from the oracle (the vocabulary of g_svg_render) is exact for every term built from
+   Term::new() by the builders. *)
+Theorem translated_render_svg_full_eq o t input :
+  svg_tf_consts t -> svg_o_min_width o = svg_tf_min_width_px t ->
+  g_svg_render_full o t input = g_svg_render o (svg_tf_term t) input.
+Proof.
+  intros [HF HP] HM. unfold g_svg_render_full, g_svg_render.
+  unfold svg_t_fg_c, svg_t_bg_c, svg_t_font_family, svg_t_padding, svg_t_min_width, svg_tf_term.
+  cbn [svg_t_palette svg_t_fg svg_t_bg svg_t_background].
+  rewrite !svg_to_of_color, HF, HP, HM. reflexivity.
+Qed.
+
+Corollary translated_render_svg_full_is_model uw ceil84 t input :
+  svg_tf_consts t ->
+  g_svg_render_full (svg_tf_oracle uw ceil84 t) t input =
+  (styled <- svg_styled (svg_tf_term t) input ;;
+   d <- svg_doc (svg_tf_term t) input ;;
+   Some (svg_print (svg_width_px (svg_tf_oracle uw ceil84 t) (svg_split_lines styled)) uw d)).
+Proof.
+  intros H. rewrite (translated_render_svg_full_eq (svg_tf_oracle uw ceil84 t) t input H eq_refl).
+  apply (translated_render_svg_is_model (svg_tf_oracle uw ceil84 t)).
+Qed.
+
+(* `Term::new().<builders>.render_svg(input)`, all of it translated *)
+Corollary translated_built_term_renders uw ceil84 bs input :
+  let t := g_svg_build g_svg_term_new bs in
+  g_svg_render_full (svg_tf_oracle uw ceil84 t) t input =
+  (styled <- svg_styled (svg_tf_term t) input ;;
+   d <- svg_doc (svg_tf_term t) input ;;
+   Some (svg_print (svg_width_px (svg_tf_oracle uw ceil84 t) (svg_split_lines styled)) uw d)).
+Proof. cbv zeta. apply translated_render_svg_full_is_model, translated_term_built_consts. Qed.
